@@ -74,12 +74,29 @@ def domain(ref: tables.RefItem):
     if ref.kind == "Bool":
         return [(True, True), (False, False), ("true", True), ("True", True), ("false", False), ("False", False)]
     if ref.kind == "Byte":
-        return [(0, 0), (1, 1), (127, 127), (128, 128), (255, 255), ("0", 0), ("200", 200)]
+        # string forms: whatever int() reads as that decimal number (padding, sign, blanks)
+        return [(0, 0), (1, 1), (127, 127), (128, 128), (255, 255), ("0", 0), ("200", 200), ("007", 7), (" 42 ", 42), ("+9", 9)]
     if ref.kind == "Word":
-        return [(0, 0), (1, 1), (255, 255), (256, 256), (65535, 65535), ("1234", 1234)]
+        return [(0, 0), (1, 1), (255, 255), (256, 256), (65535, 65535), ("1234", 1234), ("0726", 726), ("00010", 10), (" 300", 300)]
     if ref.kind == "Time":
         return [("00:00", "00:00"), ("23:59", "23:59"), ("255:255", "255:255"), ("01:02", "01:02"), ("7:5", "07:05")]
     return []
+
+
+INVALID = {"Enum": ["NoSuchLabel-\u00e9", 3.5], "Byte": ["abc", "", None], "Word": ["x1", "12.5.1", None], "Time": ["ab:cd", "1200", 7], "Bool": []}
+
+
+def poison(sh: Shard, rig, ref):
+    """Writes the item must reject (or at least cannot satisfy) on the long-lived accessor objects,
+    before the judged ones: whatever a rejected write does, it must not change what later valid
+    writes on the same accessor do.  Outcomes are only recorded."""
+    if ref.rw is None:
+        return
+    for bad in INVALID.get(ref.kind, []):
+        for path in PATHS:
+            cap, exc = rig.write(path, ref.tag, bad)
+            sh.count("rejected_writes_attempted")
+            sh.see("rejected_write_outcomes", f"{ref.kind}:{type(bad).__name__}:{type(exc).__name__ if exc else 'no-exception'}:{len(cap)}-emitted")
 
 
 def priors(ref, r, exhaustive=False):
@@ -211,6 +228,21 @@ def temp_cases(sh, stem, ref, rig, block, r, keyp):
                 _, pos, length, val = cap[0]
                 if (pos, length, val) != (ref.pos, 2, raw):
                     sh.violation(f"{keyp}:temp-roundtrip", f"{stem}/{ref.tag}: reading {reading} ({units}) of raw {raw} writes back {(pos, length, val)}", {"raw": raw, "units": units, "path": path})
+        # any other decimal a user may type (number and text forms): whatever word it lands on, the
+        # blocking and the awaitable paths must emit the same device write
+        if ref.rw is not None and not ((uref.pos < ref.pos + 2) and (ref.pos < uref.pos + uref.width)):
+            rig.set_block(bytes(ub))
+            lo, hi = (0.0, 60.0) if units == "C" else (32.0, 140.0)
+            for v in [37.7, 38.05, 99.95, "37.7", "101.3", round(r.uniform(lo, hi), 1), round(r.uniform(lo, hi), 2), r.uniform(lo, hi), str(round(r.uniform(lo, hi), 1))]:
+                got = {}
+                for path in PATHS:
+                    cap, exc = rig.write(path, ref.tag, v)
+                    sh.count("writes")
+                    got[path] = ("raised " + type(exc).__name__) if exc is not None else tuple(tuple(c[1:]) for c in cap)
+                sh.evaluations += 1
+                sh.count("temperature_decimals_through_all_paths")
+                if len(set(got.values())) > 1:
+                    sh.violation(f"{keyp}:paths-differ", f"{stem}/{ref.tag}: temperature {v!r} ({units}): blocking and awaitable paths emit different device writes {got}", {"module": stem, "item": ref.tag, "value": v, "units": units, "emitted": {k: repr(x) for k, x in got.items()}})
     rig.set_block(block)
 
 
@@ -265,6 +297,7 @@ def shard_modules(sh: Shard, stems, seed, tier):
                         # some bits each and share others - a write to one must change the other
                         overlap_witness(sh, stem, rig, block, ref, r2, m1 & m2, r)
             share = share[:6]
+            poison(sh, rig, ref)
             for value, expect in domain(ref):
                 for prior in priors(ref, r):
                     b = block[: ref.pos] + prior.to_bytes(ref.width, "big") + block[ref.pos + ref.width :]
@@ -340,8 +373,9 @@ def main(tier, seed):
     run.need(run.counters.get("items", 0) >= 20000, "fewer than 20000 items driven")
     run.need(run.counters.get("refusals_observed", 0) > 0, "no read-only refusal observed")
     run.need(run.counters.get("writes", 0) > 100000, "too few writes observed")
+    run.need(run.counters.get("rejected_writes_attempted", 0) > 1000 and run.counters.get("temperature_decimals_through_all_paths", 0) > 1000, "rejected writes / arbitrary temperature decimals never driven")
     return run.finish(
-        rule="every item of every cfg/log module (loaded with a partner table of its platform), every value of its domain (all distinct labels / booleans and their string forms / byte, word, time corner values / temperature readings in both units) x a set of prior field contents (0, all-ones, random, alternating, complement of the field; thorough: ALL prior contents for one representative item per distinct shape) x three write paths; one evaluation = one (item, prior, value) case; distinct = distinct (module,item) pairs driven (+ shapes exhausted)",
+        rule="every item of every cfg/log module (loaded with a partner table of its platform), every value of its domain (all distinct labels / booleans and their string forms / byte, word, time corner values incl. padded, signed and blank-wrapped decimal strings / temperature readings in both units; arbitrary temperature decimals for the identical-writes clause; each writable item first receives writes it must reject, on the same long-lived accessor objects) x a set of prior field contents (0, all-ones, random, alternating, complement of the field; thorough: ALL prior contents for one representative item per distinct shape) x three write paths; one evaluation = one (item, prior, value) case; distinct = distinct (module,item) pairs driven (+ shapes exhausted)",
         assumptions=["reference decoder derives geometry from the table declarations (tag,pos,type,bitpos,items,size,maxitems), field width for N max-items = ceil(log2 N) bits", "device applies a set-value command as a big-endian 1/2-byte store at pos", "items outside the 1024-byte block are C18's subject and skipped here"],
         exhaustive=False,
     )
